@@ -142,12 +142,12 @@ P = lambda i: ("param", i)
 def _norm(t):
     """get_unchecked(&T, i) == T[i]; strip casts; canonical operator order"""
     def f(x):
-        if x[0] == "deref" and x[1][0] == "call" and isinstance(x[1][1], str) and x[1][1].endswith("get_unchecked") \
-                and len(x[1][2]) == 2:
-            base = x[1][2][0]
+        if x[0] == "call" and isinstance(x[1], str) and x[1].split("::")[-1] in ("get_unchecked", "get_unchecked_mut") \
+                and len(x[2]) == 2:
+            base = x[2][0]
             while base[0] in ("ref", "deref", "deref*"):
                 base = base[1]
-            return ("index", base, x[1][2][1])
+            return ("ref", ("index", base, x[2][1]))
         if x[0] == "index" and x[1][0] in ("ref",):
             return ("index", x[1][1], x[2])
         return x
